@@ -32,8 +32,11 @@ tree('T3', [Opt('sec', 'mt', 'MT', sub=[Opt('int', 'x', '', 1), Opt('int', 'l', 
      b'mt a { x = 1 } mt "b c" { x = 2 } mt "it\'s" { x = 3 } mt "x|y" { x = 4 } mt "q\\\\z" { x = 5 } mt 7 { x = 6 } mt "=" { x = 7 } mt "\'q" { x = 8 } mt "" { x = 9 }')
 tree('T4', [Opt('sec', 's', '', sub=[Opt('sec', 'mt', 'MT', sub=[Opt('sec', 'm', 'M', sub=[Opt('int', 'z', '', 1)]), Opt('int', 'x', '', 2)])])],
      b's { mt a { m { z = 1 } m { z = 2 } x = 9 } mt b { x = 8 } }')
-tree('T5', [Opt('sec', 'Sec', '', sub=[Opt('int', 'Xa', '', 1)]), Opt('sec', 'mm', 'M', sub=[Opt('int', 'x', '', 1)]), Opt('int', 'i', '', 5)],
-     b'sec { xa = 3 } MM { X = 4 }', CFGF['NOCASE'])
+tree('T5', [Opt('sec', 'Sec', '', sub=[Opt('int', 'Xa', '', 1)]), Opt('sec', 'mm', 'M', sub=[Opt('int', 'x', '', 1)]), Opt('int', 'i', '', 5),
+            Opt('sec', 'Mt', 'MT', sub=[Opt('int', 'x', '', 1)])],
+     b'sec { xa = 3 } MM { X = 4 } mt Abc { x = 5 } MT "q R" { X = 6 }', CFGF['NOCASE'])
+tree('T8', [Opt('sec', 'Mt', 'MT', sub=[Opt('int', 'x', '', 1)]), Opt('int', 'i', '', 5)],      # the same titles in a case-SENSITIVE context
+     b'Mt Abc { x = 5 } Mt abc { x = 6 }')
 tree('T6', [Opt('sec', 'm', 'M', sub=[Opt('int', '0', '', 1), Opt('int', 'x', '', 2)]), Opt('int', '1', '', 5), Opt('str', 'str', '', b'v'),
             Opt('sec', 'mt', 'MT', sub=[Opt('int', 'x', '', 1)])], b'm { 0 = 3 } mt 0 { x = 5 } mt 1 { x = 6 }')
 
@@ -77,6 +80,8 @@ def all_paths(store):
                             out.append(p + f)
                     walk(inst, [p + f + b'|' for p in prefixes for f in forms])
     walk(store, [b''])
+    # letter-case variants of every path: the same thing in a case-insensitive context, something else (or nothing) otherwise
+    out += [p.lower() for p in out] + [p.upper() for p in out]
     seen, uniq = set(), []
     for p in out:
         if p not in seen:
